@@ -31,3 +31,49 @@ Proof.
     flat_refines Q qleb (linkf meth) (dm m) qleb_trans (length m) t1 t2 (proj2 (Qle_bool_iff _ _) L)).
 Qed.
 Print Assumptions C10_flat_refines_Q.
+
+(* ------------------------------------------------------------------ *)
+(* Cognate detection (LexStat.cluster, model Cognates/LexCluster.v): with the
+   same method (distance function, including the scorer it uses), linkage and
+   wordlist, two words that share a cognate-set identifier at threshold t1 share
+   one at every t2 >= t1: every cognate set at t1 is contained in one at t2.
+   Any carrier with a transitive order, any linkage, any distance function. *)
+From LV Require Import Cognates.LexCluster Cognates.LexTheorems Cognates.LexClusterExec.
+
+Theorem C10_cognates_refine :
+  forall (V : Type) (leb : V -> V -> bool) (link : list V -> V) (zero err : V)
+         (dist : nat -> nat -> option V),
+    (forall a b c, leb a b = true -> leb b c = true -> leb a c = true) ->
+    forall (t1 t2 : V) (wl : list row) (o1 o2 : list (nat * nat)),
+      leb t1 t2 = true -> NoDup (map rid wl) ->
+      lex_cluster V leb link zero err dist t1 wl = Some o1 ->
+      lex_cluster V leb link zero err dist t2 wl = Some o2 ->
+      forall r1 r2 a1 a2 b1 b2, In r1 wl -> In r2 wl ->
+        In (rid r1, a1) o1 -> In (rid r2, a2) o1 -> In (rid r1, b1) o2 -> In (rid r2, b2) o2 ->
+        a1 = a2 -> b1 = b2.
+Proof. exact cognates_refine. Qed.
+Print Assumptions C10_cognates_refine.
+
+(* the rational instance that is run against the implementation: turchin,
+   normalised edit distance, and replayed sca / lexstat distances *)
+Theorem C10_cognates_refine_Q :
+  forall (meth : method) (s : dspec) (t1 t2 : Q) (wl : list row) (o1 o2 : list (nat * nat)),
+    (t1 <= t2)%Q -> NoDup (map rid wl) ->
+    lexq meth t1 s wl = Some o1 -> lexq meth t2 s wl = Some o2 ->
+    forall r1 r2 a1 a2 b1 b2, In r1 wl -> In r2 wl ->
+      In (rid r1, a1) o1 -> In (rid r2, a2) o1 -> In (rid r1, b1) o2 -> In (rid r2, b2) o2 ->
+      a1 = a2 -> b1 = b2.
+Proof.
+  exact (fun meth s t1 t2 wl o1 o2 L =>
+    cognates_refine Q qleb (linkf meth) 0%Q hundred (dist_of s) qleb_trans t1 t2 wl o1 o2
+      (proj2 (Qle_bool_iff _ _) L)).
+Qed.
+Print Assumptions C10_cognates_refine_Q.
+
+(* non-vacuity: two sets at 2/5 that are merged at 1/2 *)
+Example C10_ex_cognates :
+  let wl := [mkrow 9 0 0; mkrow 3 0 0; mkrow 5 0 1; mkrow 4 0 0] in
+  let w := DEdit [(9, [1; 2]); (3, [3; 2]); (5, [1; 2]); (4, [1; 2; 5])] in
+  lexq Single (2#5) w wl = Some [(9, 1); (3, 3); (5, 1); (4, 1)] /\
+  lexq Single (1#2) w wl = Some [(9, 1); (3, 1); (5, 1); (4, 1)].
+Proof. vm_compute. split; reflexivity. Qed.
